@@ -1325,8 +1325,9 @@ def builder_check(pid, rep, tier, seed, wd):
             elif "state" in r:
                 states[r["state"]] = r
     # every distinct builder state: serialised bytes through the parser specification (structural C03, last sentence of C11)
-    key = {"kind": "short", "password": list(b"builder-key")}
-    cases = [{"bytes": st["bytes"], "creds": [key], "src": "builder state [%s]" % k, "types": st["types"], "lookup": [6, 8, 28, 36, 32513, 32802, 32808, 32810]}
+    # (longer than the 64-byte block of HMAC-SHA1/SHA256: a key that an implementation must hash, not clamp)
+    key = {"kind": "short", "password": list(b"builder-key 0123456789abcdef0123456789abcdef0123456789abcdef0123456789abcdef0123456789abcdef0123456789abcdef")}
+    cases = [{"bytes": st["bytes"], "creds": [key], "src": "builder state [%s]" % k, "types": st["types"], "lookup": [6, 8, 28, 36, 32520, 32802, 32808, 32810]}
              for k, st in sorted(states.items())]
     triples = run_pipeline(cases, wd, "builder", trace=False)
     for case, obs, exp, hang in triples:
